@@ -1,7 +1,7 @@
 (* Concrete batches, built inside Coq with correct checksums, on which the model
    of handleGRO and the specification are evaluated by vm_compute:
    non-vacuity examples and the refutations that correspond to the findings. *)
-From WG Require Import Base.Prelude Gen.Constants Gro.Bytes Gro.Model Gro.KernelSpec Gro.Spec.
+From WG Require Import Base.Prelude Gen.Constants Gro.Bytes Gro.Model Gro.OldModel Gro.KernelSpec Gro.Spec.
 Local Open Scope N_scope.
 
 Definition payload (n seed : N) : list N := map (fun i => (i * 7 + seed) mod 256) (indices (N.to_nat n) 0).
@@ -34,6 +34,9 @@ Definition stale : list N := [60; 154; 5; 0; 0; 0; 0; 0; 0; 0].
 
 Definition run (bufs : list buf) : state := handle_gro true 16 bufs.
 Definition holds (bufs : list buf) : bool := let s := run bufs in holdsb bufs (s_tw s) (s_bufs s).
+(* the code before the fixes 951b0e7, 4a9316a, b918254, ad814da *)
+Definition run_old (bufs : list buf) : state := Old.handle_gro true 16 bufs.
+Definition holds_old (bufs : list buf) : bool := let s := run_old bufs in holdsb bufs (s_tw s) (s_bufs s).
 
 (* ---- non-vacuity: coalescing happens and the specification holds ---- *)
 Definition ex_mixed : list buf :=
@@ -54,43 +57,51 @@ Definition ex_cap' : list buf := map (mkb z10 (240 + 32)) [tcp4 1 16 100; tcp4 1
 Lemma ex_cap_ok : s_tw (run ex_cap) = [0; 1] /\ s_tw (run ex_cap') = [0] /\ holds ex_cap = true /\ holds ex_cap' = true.
 Proof. vm_compute. repeat split; reflexivity. Qed.
 
-(* ---- refutations: the faithful model violates the property as stated ---- *)
-(* F8: same 5-tuple, another IPv6 flow label: merged, all leave with the first label *)
+(* ---- the four repaired defects: refuted for the old code, fine for the current code ---- *)
+(* F8 (951b0e7): same 5-tuple, another IPv6 flow label: the old code merged them, all left with the first label *)
 Definition ex_flowlabel : list buf := map (mkb z10 65535) [tcp6 699050 1 16 100; tcp6 768955 101 16 100; tcp6 699050 201 16 100].
-Lemma ex_flowlabel_refutes :
-  let s := run ex_flowlabel in
+Lemma ex_flowlabel_old_refutes :
+  let s := run_old ex_flowlabel in
   s_tw s = [0] /\ floweq_ok ex_flowlabel (s_tw s) (s_bufs s) = false /\ floweq_gen true false ex_flowlabel (s_tw s) (s_bufs s) = true.
 Proof. vm_compute. repeat split; reflexivity. Qed.
+Lemma ex_flowlabel_now : s_tw (run ex_flowlabel) = [0; 1; 2] /\ holds ex_flowlabel = true.
+Proof. vm_compute. split; reflexivity. Qed.
 
-(* F5: capacity beyond 65535 + 2*offset: 55 x 1200 bytes are merged into 66040 bytes, total length field 504 *)
+(* F5 (4a9316a): capacity beyond 65535 + 2*offset: the old code merged 55 x 1200 bytes into 66040 bytes, length field 504 *)
 Definition ex_big : list buf := map (fun i => mkb z10 131072 (tcp4 (1 + 1200 * i) 16 1200)) (indices 56 0).
-Lemma ex_big_refutes :
-  let s := run ex_big in
+Lemma ex_big_old_refutes :
+  let s := run_old ex_big in
   s_tw s = [0; 55] /\ len (b_pkt (get_buf (s_bufs s) 0)) = 66040 /\ be16 (b_pkt (get_buf (s_bufs s) 0)) 2 = 504 /\
   holdsb ex_big (s_tw s) (s_bufs s) = false.
+Proof. vm_compute. repeat split; reflexivity. Qed.
+Lemma ex_big_now : s_tw (run ex_big) = [0; 54] /\ len (b_pkt (get_buf (s_bufs (run ex_big)) 0)) = 64840 /\ holds ex_big = true.
 Proof. vm_compute. repeat split; reflexivity. Qed.
 
 Definition merged_into_b (tr : list gres) (j : N) : bool :=
   existsb (fun r => match r with Coalesced j' _ => j' =? j | _ => false end) tr.
 
-(* a TCP item dropped from the table for an invalid checksum keeps the stale bytes in front of it *)
+(* b918254: a TCP item dropped from the table for an invalid checksum kept the stale bytes in front of it *)
 Definition bad (p : list N) : list N := put_byte p 40 ((byte_at p 40 + 1) mod 256).
 Definition ex_stale : list buf := [mkb stale 65535 (bad (tcp4 1 16 100)); mkb stale 65535 (tcp4 101 16 100)].
-Lemma ex_stale_refutes :
-  let s := run ex_stale in
+Lemma ex_stale_old_refutes :
+  let s := run_old ex_stale in
   s_tw s = [0; 1] /\ b_hdr (get_buf (s_bufs s) 0) = stale /\ b_hdr (get_buf (s_bufs s) 1) = zero_vhdr /\
   merged_into_b (s_trace s) 0 = false /\ holdsb ex_stale (s_tw s) (s_bufs s) = false.
 Proof. vm_compute. repeat split; reflexivity. Qed.
+Lemma ex_stale_now : b_hdr (get_buf (s_bufs (run ex_stale)) 0) = zero_vhdr /\ holds ex_stale = true.
+Proof. vm_compute. split; reflexivity. Qed.
 
-(* a segment put in front of an item that ends with PSH: the merged header has no PSH *)
+(* ad814da: a segment put in front of an item that ends with PSH: the old merged header had no PSH *)
 Definition ex_psh : list buf := map (mkb z10 65535) [tcp4 101 24 100; tcp4 1 16 100].
-Lemma ex_psh_refutes :
-  let s := run ex_psh in
+Lemma ex_psh_old_refutes :
+  let s := run_old ex_psh in
   s_tw s = [0] /\ byte_at (b_pkt (get_buf (s_bufs s) 0)) 33 = 16 /\
   floweq_ok ex_psh (s_tw s) (s_bufs s) = false /\ floweq_gen false true ex_psh (s_tw s) (s_bufs s) = true.
 Proof. vm_compute. repeat split; reflexivity. Qed.
+Lemma ex_psh_now : byte_at (b_pkt (get_buf (s_bufs (run ex_psh)) 0)) 33 = 24 /\ holds ex_psh = true.
+Proof. vm_compute. split; reflexivity. Qed.
 
-(* a zero-length datagram is overtaken by a later datagram of its flow *)
+(* ---- still refuted: a zero-length datagram is overtaken by a later datagram of its flow ---- *)
 Definition ex_udp0 : list buf := map (mkb z10 65535) [udp4 5 100; udp4 5 0; udp4 5 100].
 Lemma ex_udp0_refutes :
   let s := run ex_udp0 in
@@ -99,44 +110,47 @@ Proof. vm_compute. repeat split; reflexivity. Qed.
 
 (* ---- the statement of property C16 in full, and what refutes it ---- *)
 Definition preb (offset : N) (bufs : list buf) : bool :=
-  (VH <=? offset) && forallb (fun b => (0 <? len (b_pkt b)) && (b_cap b <=? 65535 + 2 * offset)) bufs.
+  (VH <=? offset) && forallb (fun b => (0 <? len (b_pkt b))) bufs.
 
 (* "for every batch the specification holds on what handleGRO writes" *)
-Definition gro_lossless_statement : Prop :=
+Definition gro_holdsb_statement (gro : bool -> N -> list buf -> state) : Prop :=
   forall canUDP offset bufs, preb offset bufs = true ->
-    let s := handle_gro canUDP offset bufs in s_err s = false /\ holdsb bufs (s_tw s) (s_bufs s) = true.
+    let s := gro canUDP offset bufs in s_err s = false /\ holdsb bufs (s_tw s) (s_bufs s) = true.
+Definition gro_lossless_statement : Prop := gro_holdsb_statement handle_gro.
 
-(* the model violates the statement: by the IPv6 flow label (F8), by PSH lost on
-   prepend, by a zero-length datagram overtaken *)
+(* the current code violates it only through the UDP order clause (known finding) *)
 Theorem gro_lossless_refuted : ~ gro_lossless_statement.
 Proof.
-  intros H. specialize (H true 16 ex_flowlabel).
-  assert (P : preb 16 ex_flowlabel = true) by (vm_compute; reflexivity).
+  intros H. specialize (H true 16 ex_udp0).
+  assert (P : preb 16 ex_udp0 = true) by (vm_compute; reflexivity).
   destruct (H P) as [_ Hh]. vm_compute in Hh. discriminate.
 Qed.
+Lemma refuted_by_udp_order : preb 16 ex_udp0 = true /\ holds ex_udp0 = false /\
+  (let s := run ex_udp0 in udp_order_ok ex_udp0 (s_tw s) (s_bufs s)) = false /\
+  (let s := run ex_udp0 in bookkeeping_ok ex_udp0 (s_tw s) (s_bufs s) && passthrough_ok ex_udp0 (s_tw s) (s_bufs s)
+                           && floweq_ok ex_udp0 (s_tw s) (s_bufs s) && headers_valid_ok (s_tw s) (s_bufs s)) = true.
+Proof. vm_compute. repeat split; reflexivity. Qed.
 
-Definition holds_modulo (fl psh : bool) (bufs : list buf) : bool :=
-  let s := run bufs in
+(* the code before the fixes: each defect refutes the statement on its own, and is the only clause that fails *)
+Definition holds_modulo_old (fl psh : bool) (bufs : list buf) : bool :=
+  let s := run_old bufs in
   bookkeeping_ok bufs (s_tw s) (s_bufs s) && passthrough_ok bufs (s_tw s) (s_bufs s) && floweq_gen fl psh bufs (s_tw s) (s_bufs s)
   && udp_order_ok bufs (s_tw s) (s_bufs s) && headers_valid_ok (s_tw s) (s_bufs s).
-
-Lemma refuted_only_by_flow_label : preb 16 ex_flowlabel = true /\ holds ex_flowlabel = false /\ holds_modulo true false ex_flowlabel = true.
+Lemma old_refuted_only_by_flow_label : preb 16 ex_flowlabel = true /\ holds_old ex_flowlabel = false /\ holds_modulo_old true false ex_flowlabel = true.
 Proof. vm_compute. repeat split; reflexivity. Qed.
-Lemma refuted_only_by_psh : preb 16 ex_psh = true /\ holds ex_psh = false /\ holds_modulo false true ex_psh = true.
+Lemma old_refuted_only_by_psh : preb 16 ex_psh = true /\ holds_old ex_psh = false /\ holds_modulo_old false true ex_psh = true.
 Proof. vm_compute. repeat split; reflexivity. Qed.
-Lemma refuted_by_udp_order : preb 16 ex_udp0 = true /\ holds ex_udp0 = false /\
-  (let s := run ex_udp0 in udp_order_ok ex_udp0 (s_tw s) (s_bufs s)) = false.
-Proof. vm_compute. repeat split; reflexivity. Qed.
-(* without the capacity bound the 16-bit length fields wrap (F5) *)
-Lemma length_wraps_with_large_cap :
+Lemma old_length_wraps_with_large_cap :
   exists bufs, forallb (fun b => (b_cap b =? 131072) && (len (b_pkt b) =? 1240)) bufs = true /\
-    let s := run bufs in s_err s = false /\ In 0 (s_tw s) /\
+    let s := run_old bufs in s_err s = false /\ In 0 (s_tw s) /\
     len (b_pkt (get_buf (s_bufs s) 0)) = 66040 /\ l3_len (b_pkt (get_buf (s_bufs s) 0)) = 504 /\
     holdsb bufs (s_tw s) (s_bufs s) = false.
 Proof. exists ex_big. vm_compute. repeat split; auto. Qed.
-(* the virtio header of a written, uncoalesced buffer is not always zeroed *)
-Lemma passthrough_zero_hdr_refuted :
-  exists bufs j, let s := run bufs in
+Lemma old_passthrough_zero_hdr_refuted :
+  exists bufs j, let s := run_old bufs in
     s_err s = false /\ In j (s_tw s) /\ merged_into_b (s_trace s) j = false /\
     b_pkt (get_buf (s_bufs s) j) = b_pkt (get_buf bufs j) /\ b_hdr (get_buf (s_bufs s) j) <> zero_vhdr.
 Proof. exists ex_stale, 0. vm_compute. repeat split; auto. discriminate. Qed.
+(* the four scenarios satisfy the whole specification on the current code *)
+Lemma fixed_scenarios_hold : holds ex_flowlabel = true /\ holds ex_big = true /\ holds ex_stale = true /\ holds ex_psh = true.
+Proof. vm_compute. repeat split; reflexivity. Qed.
